@@ -398,6 +398,12 @@ func (G *genuine) apply(v Variant, nc int) (plonk.Proof, []*big.Int, string, str
 			dst.Set(src)
 		case "mul":
 			zk.PMul(dst, dst, big.NewInt(v.Delta+2))
+		case "torsion":
+			tp, ok := zk.TorsionG1(G.g.F.Name, q, dst, v.Idx)
+			if !ok {
+				return nil, nil, "", "no cofactor torsion on this curve"
+			}
+			zk.PAdd(dst, dst, tp)
 		}
 		return p, pub, "element " + v.Target + " " + v.Op, ""
 	case "fr":
@@ -581,7 +587,7 @@ func (G *genuine) dishonest(v Variant, pub []*big.Int) (plonk.Proof, []*big.Int,
 }
 
 var pubOps = []string{"inc", "dec", "zero", "delta", "copy", "swap", "shorter", "longer", "alt"}
-var elemOps = []string{"neg", "double", "inf", "add", "set", "other", "alt", "mul"}
+var elemOps = []string{"neg", "double", "inf", "add", "set", "other", "alt", "mul", "torsion", "torsion"}
 var frOps = []string{"inc", "zero", "delta", "neg", "swap", "other"}
 var listOps = []string{"dropLast", "dropFirst", "dup", "appendZero", "swap2", "nil", "truncate"}
 var dishonestOps = []string{"wireAll", "onePos", "padPos", "publicRow"}
